@@ -388,7 +388,7 @@ var (
 	tAny       = reflect.TypeOf((*any)(nil)).Elem()
 	tTypes     = reflect.TypeOf(openapi3.Types{})
 	tAddProps  = reflect.TypeOf(openapi3.AdditionalProperties{})
-	tOrigin    = reflect.TypeOf(openapi3.Origin{})
+	c03_tOrigin    = reflect.TypeOf(openapi3.Origin{})
 	c03Strings = []string{"s", "a b", "x-y", "true", "12", "2020-01-02", "null", "é✓", "a: b", "#/x", "~", "0x1f", " lead", "multi\nline"}
 )
 
